@@ -1978,6 +1978,9 @@ dnsname_to_labels(u8 *const buf, size_t buf_len, off_t j,
 			/* append length of the label. */
 			const size_t label_len = name - start;
 			if (label_len > 63) return -1;
+			/* an empty label before a dot ("a..b", ".a") has no wire
+			 * form: a zero length byte would end the name here */
+			if (label_len == 0) return -1;
 			if ((size_t)(j+label_len+1) > buf_len) return -2;
 			/* a compression pointer has 14 bits of offset */
 			if (table && j < 0x4000) dnslabel_table_add(table, start, j);
